@@ -61,6 +61,9 @@ func aggregate(prop string, cfg PropConfig, reports []*FuncReport, known []Known
 			continue
 		}
 		res.Reports = append(res.Reports, rep)
+		if os.Getenv("GOVC_VERBOSE") != "" {
+			fmt.Printf("func %-50s paths=%d returns=%d queries=%d solver=%dms wall=%dms\n", rep.Func, rep.Paths, rep.Returns, rep.Queries, rep.SolverMs, rep.WallMs)
+		}
 		res.SolverMs += rep.SolverMs
 		for _, t := range rep.trusted {
 			trusted[t] = true
